@@ -327,12 +327,187 @@ fn fingerprint(sess: &Sess) -> Option<String> {
 }
 
 const FLAG_PRESERVING: &[&str] =
-    &["link", "unlink", "sew", "unsew", "vid", "eid", "fid", "volid", "orbit", "beta", "isun", "rv", "wv", "xv", "ra", "wa", "xa"];
+    &["link", "unlink", "sew", "unsew", "vid", "eid", "fid", "volid", "orbit", "beta", "isun", "rv", "wv", "xv", "ra", "wa", "xa",
+      "insv", "insvs", "fan", "fanconvex", "earclip"];
 
 type SnapCache = std::collections::HashMap<String, (String, String)>;
 
-fn run_once(pool: &mut Pool, sc: &Scenario, strategy: Strategy, max_steps: u64, trace: bool, cache: &mut Option<SnapCache>) -> Result<RunOut, String> {
-    let mut sess = Arc::new(build(&sc.init)?);
+/// The initial state of a scenario, read through the public accessors.  The map is built ONCE per scenario and put back
+/// into this state before every schedule: the attribute manager of a map iterates a `HashMap` whose hash seed differs for
+/// every map instance, so rebuilding the map for every schedule would change the order in which the attribute storages
+/// are visited (hence the sequence of yield points) from one re-execution to the next and break the replay of prefixes.
+struct Init {
+    betas: Vec<[u32; 4]>,
+    v2: Vec<Option<honeycomb_core::geometry::Vertex2<f64>>>,
+    v3: Vec<Option<honeycomb_core::geometry::Vertex3<f64>>>,
+    attrs: Vec<[Option<u32>; 5]>,
+    terms: usize,
+}
+
+macro_rules! attr_rw {
+    ($m:expr, $mask:expr, $x:expr, $st:expr, read) => {{
+        use attrs::{CTerm, ETerm, FTerm, VDef, VTerm};
+        if ($mask >> ($st - 1)) & 1 == 0 {
+            None
+        } else {
+            match $st {
+                1 => $m.force_read_attribute::<VTerm>($x).map(|v| v.0),
+                2 => $m.force_read_attribute::<ETerm>($x).map(|v| v.0),
+                3 => $m.force_read_attribute::<FTerm>($x).map(|v| v.0),
+                4 => $m.force_read_attribute::<CTerm>($x).map(|v| v.0),
+                _ => $m.force_read_attribute::<VDef>($x).map(|v| v.0),
+            }
+        }
+    }};
+    ($m:expr, $x:expr, $st:expr, write $v:expr) => {{
+        use attrs::{CTerm, ETerm, FTerm, VDef, VTerm};
+        match ($st, $v) {
+            (1, Some(v)) => $m.force_write_attribute::<VTerm>($x, VTerm(v)).map(|_| ()),
+            (2, Some(v)) => $m.force_write_attribute::<ETerm>($x, ETerm(v)).map(|_| ()),
+            (3, Some(v)) => $m.force_write_attribute::<FTerm>($x, FTerm(v)).map(|_| ()),
+            (4, Some(v)) => $m.force_write_attribute::<CTerm>($x, CTerm(v)).map(|_| ()),
+            (_, Some(v)) => $m.force_write_attribute::<VDef>($x, VDef(v)).map(|_| ()),
+            (1, None) => $m.force_remove_attribute::<VTerm>($x).map(|_| ()),
+            (2, None) => $m.force_remove_attribute::<ETerm>($x).map(|_| ()),
+            (3, None) => $m.force_remove_attribute::<FTerm>($x).map(|_| ()),
+            (4, None) => $m.force_remove_attribute::<CTerm>($x).map(|_| ()),
+            (_, None) => $m.force_remove_attribute::<VDef>($x).map(|_| ()),
+        }
+    }};
+}
+
+/// storages registered on the session's map (2-D maps have no volume storage)
+fn storages(sess: &Sess) -> Vec<u32> {
+    match sess {
+        Sess::None => vec![],
+        Sess::D2(s) => [1u32, 2, 3, 5].into_iter().filter(|st| (s.mask >> (st - 1)) & 1 == 1).collect(),
+        Sess::D3(s) => (1u32..=5).filter(|st| (s.mask >> (st - 1)) & 1 == 1).collect(),
+    }
+}
+
+fn capture(sess: &Sess) -> Init {
+    let sts = storages(sess);
+    let mut init = Init { betas: vec![], v2: vec![], v3: vec![], attrs: vec![], terms: attrs::terms_len() };
+    match sess {
+        Sess::None => {}
+        Sess::D2(s) => {
+            let m = &s.map;
+            for x in 0..m.n_darts() as u32 {
+                init.betas.push([m.beta_rt(0, x), m.beta_rt(1, x), m.beta_rt(2, x), 0]);
+                init.v2.push(m.force_read_vertex(x));
+                let mut a = [None; 5];
+                for &st in &sts {
+                    a[st as usize - 1] = attr_rw!(m, s.mask, x, st, read);
+                }
+                init.attrs.push(a);
+            }
+        }
+        Sess::D3(s) => {
+            let m = &s.map;
+            for x in 0..m.n_darts() as u32 {
+                init.betas.push([m.beta_rt(0, x), m.beta_rt(1, x), m.beta_rt(2, x), m.beta_rt(3, x)]);
+                init.v3.push(m.force_read_vertex(x));
+                let mut a = [None; 5];
+                for &st in &sts {
+                    a[st as usize - 1] = attr_rw!(m, s.mask, x, st, read);
+                }
+                init.attrs.push(a);
+            }
+        }
+    }
+    init
+}
+
+/// put the map back into the captured state (only the slots that differ are written)
+fn reset(sess: &Sess, init: &Init) -> Result<(), String> {
+    let sts = storages(sess);
+    attrs::truncate_terms(init.terms);
+    attrs::FAULT.with(|f| f.set(0));
+    match sess {
+        Sess::None => {}
+        Sess::D2(s) => {
+            let m = &s.map;
+            if m.n_darts() != init.betas.len() {
+                return Err("the number of darts changed".into());
+            }
+            for x in 0..m.n_darts() as u32 {
+                let b = init.betas[x as usize];
+                if [m.beta_rt(0, x), m.beta_rt(1, x), m.beta_rt(2, x)] != [b[0], b[1], b[2]] {
+                    m.set_betas(x, [b[0], b[1], b[2]]);
+                }
+                let v = init.v2[x as usize];
+                if m.force_read_vertex(x) != v {
+                    match v {
+                        Some(v) => {
+                            m.force_write_vertex(x, v);
+                        }
+                        None => {
+                            m.force_remove_vertex(x);
+                        }
+                    }
+                }
+                for &st in &sts {
+                    let want = init.attrs[x as usize][st as usize - 1];
+                    // ids above `init.terms` are gone: compare by id, rewrite whenever the id differs
+                    if attr_rw!(m, s.mask, x, st, read) != want {
+                        let _ = attr_rw!(m, x, st, write want);
+                    }
+                }
+            }
+        }
+        Sess::D3(s) => {
+            let m = &s.map;
+            if m.n_darts() != init.betas.len() {
+                return Err("the number of darts changed".into());
+            }
+            for x in 0..m.n_darts() as u32 {
+                let b = init.betas[x as usize];
+                if [m.beta_rt(0, x), m.beta_rt(1, x), m.beta_rt(2, x), m.beta_rt(3, x)] != b {
+                    m.set_betas(x, b);
+                }
+                let v = init.v3[x as usize];
+                if m.force_read_vertex(x) != v {
+                    match v {
+                        Some(v) => {
+                            m.force_write_vertex(x, v);
+                        }
+                        None => {
+                            m.force_remove_vertex(x);
+                        }
+                    }
+                }
+                for &st in &sts {
+                    let want = init.attrs[x as usize][st as usize - 1];
+                    if attr_rw!(m, s.mask, x, st, read) != want {
+                        let _ = attr_rw!(m, x, st, write want);
+                    }
+                }
+            }
+        }
+    }
+    Ok(())
+}
+
+/// per-scenario state of the exploration
+struct Ctx {
+    /// no op of the scenario can change a removal flag or the number of darts: build once, reset between schedules
+    persistent: bool,
+    world: Option<(Arc<Sess>, Init)>,
+    cache: Option<SnapCache>,
+}
+
+fn run_once(pool: &mut Pool, sc: &Scenario, strategy: Strategy, max_steps: u64, trace: bool, ctx: &mut Ctx) -> Result<RunOut, String> {
+    let (mut sess, init) = match ctx.world.take() {
+        Some((sess, init)) => {
+            reset(&sess, &init)?;
+            (sess, Some(init))
+        }
+        None => {
+            let sess = build(&sc.init)?;
+            let init = if ctx.persistent { Some(capture(&sess)) } else { None };
+            (Arc::new(sess), init)
+        }
+    };
     let ntx: Vec<usize> = sc.threads.iter().map(|t| t.len()).collect();
     let body: Body = {
         let sess = sess.clone();
@@ -353,12 +528,12 @@ fn run_once(pool: &mut Pool, sc: &Scenario, strategy: Strategy, max_steps: u64, 
             std::process::exit(3);
         }
     };
+    while Arc::strong_count(&sess) > 1 {
+        std::hint::spin_loop();
+    }
     let (snap, wf) = if status == "ok" {
-        while Arc::strong_count(&sess) > 1 {
-            std::hint::spin_loop();
-        }
         let s = Arc::get_mut(&mut sess).ok_or_else(|| "session still shared".to_string())?;
-        match cache.as_mut().and_then(|c| fingerprint(s).map(|f| (c, f))) {
+        match ctx.cache.as_mut().and_then(|c| fingerprint(s).map(|f| (c, f))) {
             Some((c, f)) => {
                 if let Some(v) = c.get(&f) {
                     v.clone()
@@ -373,6 +548,9 @@ fn run_once(pool: &mut Pool, sc: &Scenario, strategy: Strategy, max_steps: u64, 
     } else {
         (String::new(), String::new())
     };
+    if let Some(init) = init {
+        ctx.world = Some((sess, init));
+    }
     Ok(RunOut { status, commit_order: run.commit_order.clone(), results, snap, wf, run })
 }
 
@@ -438,13 +616,14 @@ fn record(out: RunOut, mode: &str, outcomes: &mut BTreeMap<Key, Outcome>, tot: &
 fn explore(pool: &mut Pool, sc: &Scenario) {
     let max_steps = sc.num("max_steps", 20000);
     let flags_fixed = sc.threads.iter().all(|t| t.iter().all(|tx| tx.iter().all(|op| FLAG_PRESERVING.contains(&op[0].as_str()))));
-    let mut cache: Option<SnapCache> = if flags_fixed { Some(SnapCache::new()) } else { None };
-    let cache = &mut cache;
+    let mut ctx = Ctx { persistent: flags_fixed, world: None, cache: if flags_fixed { Some(SnapCache::new()) } else { None } };
+    let cache = &mut ctx;
     let mut outcomes: BTreeMap<Key, Outcome> = BTreeMap::new();
     let mut tot = Totals::default();
     let mut exhaustive = false;
     let mut truncated = false;
     let mut bound_done: i64 = -1;
+    let mut diverged = 0u64;
     let fail = |e: String| {
         println!("{{\"scenario\":{},\"type\":\"error\",\"what\":{}}}", js(&sc.name), js(&e));
     };
@@ -480,6 +659,7 @@ fn explore(pool: &mut Pool, sc: &Scenario) {
                 let mode = format!("pb{bound}");
                 let mut dfs = Dfs::new(bound);
                 let mut n = 0u64;
+                diverged += dfs.diverged;
                 let lim = if bound == p0 { cap } else { full_cap };
                 let mut complete = false;
                 loop {
@@ -502,6 +682,7 @@ fn explore(pool: &mut Pool, sc: &Scenario) {
                         break;
                     }
                 }
+                diverged += dfs.diverged;
                 if complete {
                     bound_done = bound as i64;
                     if !dfs.pruned {
@@ -575,14 +756,15 @@ fn explore(pool: &mut Pool, sc: &Scenario) {
     }
     let modes: Vec<String> = tot.by_mode.iter().map(|(k, v)| format!("{}:{}", js(k), v)).collect();
     println!(
-        "{{\"scenario\":{},\"type\":\"summary\",\"threads\":{},\"transactions\":{},\"schedules\":{},\"by_mode\":{{{}}},\"bound_completed\":{},\"exhaustive\":{},\"truncated\":{},\"max_preemptions\":{},\"retries\":{},\"runs_with_retry\":{},\"stm_blocks\":{},\"atomic_reads\":{},\"first_reads\":{},\"max_steps\":{},\"distinct_outcomes\":{},\"distinct_commit_orders\":{}}}",
+        "{{\"scenario\":{},\"type\":\"summary\",\"threads\":{},\"transactions\":{},\"schedules\":{},\"by_mode\":{{{}}},\"bound_completed\":{},\"diverged_replays\":{},\"exhaustive\":{},\"truncated\":{},\"max_preemptions\":{},\"retries\":{},\"runs_with_retry\":{},\"stm_blocks\":{},\"atomic_reads\":{},\"first_reads\":{},\"max_steps\":{},\"distinct_outcomes\":{},\"distinct_commit_orders\":{}}}",
         js(&sc.name),
         sc.threads.len(),
         sc.threads.iter().map(|t| t.len()).sum::<usize>(),
         tot.schedules,
         modes.join(","),
         bound_done,
-        exhaustive,
+        diverged,
+        exhaustive && diverged == 0,
         truncated,
         tot.max_preemptions,
         tot.retries,
